@@ -316,7 +316,14 @@ fn extract_source_map<R: Read>(
                         let final_path = if source_path.is_absolute() {
                             source_path
                         } else {
-                            let folder = file_reader.parent(Path::new(file_path)).unwrap();
+                            // a file name without a parent folder ("" or "/") has no relative source map
+                            let folder =
+                                file_reader.parent(Path::new(file_path)).ok_or_else(|| {
+                                    std::io::Error::new(
+                                        std::io::ErrorKind::NotFound,
+                                        "source file has no parent folder",
+                                    )
+                                })?;
                             folder.join(source_path)
                         };
 
